@@ -416,11 +416,234 @@ def patched_spnego_client(factory: t.Callable[..., ScriptedContext]):
         spnego.client = orig
 
 
+class Bridge:
+    """Last line of interception.  The harness scripts `socket.create_connection` and `asyncio.open_connection`; a client that
+    reaches the network some other way (a socket object it connects itself, functions bound by name at import time,
+    `loop.create_connection`, ...) still ends up at the Python-level `socket.socket.connect` / `socket.getaddrinfo`.  While a
+    harness is installed those two map every destination to one loopback listener of this process, and the accepted
+    connection is pumped to the same scripted peer (`sync_factory(host, port)` -> FakeSocket) the in-memory path would have
+    used.  Whatever API the client uses it therefore talks to the same scripted peer; only timing is real."""
+
+    IDLE_SECONDS = 5.0
+
+    def __init__(self) -> None:
+        self.installed = False
+        self.stack: t.List[tuple] = []  # (sync_factory, log)
+        self.tcp_dcs: t.List[t.Any] = []  # reference DCs on real loopback ports (refdc.frontends.TcpDC) currently installed
+        self.listener = None
+        self.addr: t.Optional[tuple] = None
+        self.pending: t.Dict[int, t.Any] = {}
+        self.last_host: t.Optional[str] = None
+        self.uses = 0
+        self.lock = None
+
+    # -- installation (once per process; inert while no harness is installed) --
+    def install(self) -> None:
+        if self.installed:
+            return
+        import socket
+        import threading
+
+        self.lock = threading.Lock()
+        bridge = self
+        real_connect = socket.socket.connect  # inherited C implementation
+        real_connect_ex = socket.socket.connect_ex
+        real_gai, real_ghbn = socket.getaddrinfo, socket.gethostbyname
+        self.real_gai = real_gai
+
+        def literal(h) -> bool:
+            try:
+                socket.inet_pton(socket.AF_INET6 if ":" in h else socket.AF_INET, h)
+                return True
+            except (OSError, ValueError, TypeError):
+                return False
+
+        def loopback(h) -> bool:
+            return isinstance(h, str) and (h.startswith("127.") or h == "::1")
+
+        def divert(sock, address):
+            """-> rewritten address or None (leave alone)."""
+            if not bridge.stack or not isinstance(address, tuple) or len(address) < 2 or sock.type != socket.SOCK_STREAM:
+                return None
+            host, port = address[0], address[1]
+            if isinstance(host, bytes):
+                host = host.decode()
+            if loopback(host) and host != (bridge.addr or ("", 0))[0]:
+                return None  # somebody's own loopback business (reference DC over TCP, asyncio self-pipe, ...)
+            if bridge.addr and host == bridge.addr[0]:
+                host = bridge.last_host or host  # resolved through our getaddrinfo a moment ago
+            factory, log = bridge.stack[-1]
+            log.append(("bridged", host, port))
+            fake = factory(host, port)  # may raise: same as on the in-memory path
+            bridge.uses += 1
+            bridge.ensure_listener()
+            return fake
+
+        def to_tcp_dc(address):
+            """A reference DC listening on real loopback ports is installed: host NAMES given straight to connect() (which the C
+            layer would resolve itself) are pointed at it; ports are left alone."""
+            if bridge.tcp_dcs and isinstance(address, tuple) and len(address) >= 2:
+                host = address[0].decode() if isinstance(address[0], bytes) else address[0]
+                if isinstance(host, str) and not literal(host):
+                    dc = bridge.tcp_dcs[-1]
+                    dc.last_host = host
+                    return (dc.addr,) + tuple(address[1:])
+            return address
+
+        def connect(self_, address):
+            fake = divert(self_, address)
+            if fake is None:
+                return real_connect(self_, to_tcp_dc(address))
+            try:
+                self_.bind((bridge.addr[0], 0))
+            except OSError:
+                pass
+            with bridge.lock:
+                bridge.pending[self_.getsockname()[1]] = fake
+            return real_connect(self_, bridge.addr)
+
+        def connect_ex(self_, address):
+            fake = divert(self_, address)
+            if fake is None:
+                return real_connect_ex(self_, to_tcp_dc(address))
+            try:
+                self_.bind((bridge.addr[0], 0))
+            except OSError:
+                pass
+            with bridge.lock:
+                bridge.pending[self_.getsockname()[1]] = fake
+            return real_connect_ex(self_, bridge.addr)
+
+        def gai(host, port, family=0, type=0, proto=0, flags=0):
+            h = host.decode() if isinstance(host, (bytes, bytearray)) else host
+            if not bridge.stack or h is None or literal(h):
+                return real_gai(host, port, family, type, proto, flags)
+            bridge.ensure_listener()
+            bridge.last_host = h
+            if family not in (0, socket.AF_INET):
+                raise socket.gaierror(socket.EAI_NONAME, "Name or service not known")
+            return [(socket.AF_INET, type or socket.SOCK_STREAM, proto or socket.IPPROTO_TCP, "", (bridge.addr[0], int(port or 0)))]
+
+        def ghbn(host):
+            if not bridge.stack or literal(host):
+                return real_ghbn(host)
+            bridge.ensure_listener()
+            bridge.last_host = host
+            return bridge.addr[0]
+
+        socket.socket.connect = connect
+        socket.socket.connect_ex = connect_ex
+        socket.getaddrinfo = gai
+        socket.gethostbyname = ghbn
+        self.installed = True
+
+    def ensure_listener(self) -> None:
+        import os
+        import socket
+        import threading
+
+        with self.lock:
+            if self.listener is not None:
+                return
+            pid = os.getpid()
+            srv = socket.socket()
+            for k in range(1, 200):
+                try:
+                    srv.bind((f"127.{1 + pid % 250}.{(pid // 250) % 250}.{251 + k % 4}", 0))
+                    break
+                except OSError:
+                    continue
+            srv.listen(128)
+            self.listener = srv
+            self.addr = srv.getsockname()
+            threading.Thread(target=self._accept, daemon=True, name="vf-bridge-accept").start()
+
+    def _accept(self) -> None:
+        import threading
+
+        while True:
+            try:
+                c, peer = self.listener.accept()
+            except OSError:
+                return
+            threading.Thread(target=self._pump, args=(c, peer), daemon=True, name="vf-bridge-pump").start()
+
+    def _pump(self, c, peer) -> None:
+        import socket
+        import threading
+        import time
+
+        from vf.instruments.monitors import NET
+
+        me = threading.get_ident()
+        NET.exempt_threads.add(me)
+        try:
+            fake = None
+            for _ in range(2000):  # the client registers its local port just before connect() is issued
+                with self.lock:
+                    fake = self.pending.pop(peer[1], None)
+                if fake is not None:
+                    break
+                time.sleep(0.001)
+            if fake is None:
+                return
+            c.setsockopt(socket.IPPROTO_TCP, socket.TCP_NODELAY, 1)
+            c.settimeout(self.IDLE_SECONDS)
+            buf = b""
+            while True:
+                # one PDU at a time, framed by frag_len as a server would
+                while len(buf) < 16 or len(buf) < max(16, int.from_bytes(buf[8:10], "little")):
+                    try:
+                        d = c.recv(65536)
+                    except socket.timeout:
+                        return  # the client neither writes nor goes away: end the connection (it sees EOF)
+                    if not d:
+                        if buf:
+                            fake.sendall(buf)
+                            fake._flush()
+                        return
+                    buf += d
+                n = max(16, int.from_bytes(buf[8:10], "little"))
+                pdu, buf = buf[:n], buf[n:]
+                fake.sendall(pdu)
+                fake._flush()
+                sent_any = False
+                while fake.chunks:
+                    c.sendall(fake.chunks.popleft())
+                    sent_any = True
+                if not sent_any:
+                    # the scripted peer has nothing to say to this PDU (and has recorded it): the in-memory socket reports
+                    # EOF at this point.  (After a reply that ends the script the EOF is held back until the client's next
+                    # PDU has been handed to the peer, so that what the peer recorded is complete when the client sees it.)
+                    try:
+                        c.shutdown(socket.SHUT_WR)
+                    except OSError:
+                        pass
+        except Exception:
+            pass
+        finally:
+            NET.exempt_threads.discard(me)
+            try:
+                fake and fake.close()
+            except Exception:
+                pass
+            try:
+                c.close()
+            except OSError:
+                pass
+
+
+BRIDGE = Bridge()
+
+
 @contextlib.contextmanager
 def patched_connections(sync_factory=None, async_factory=None):
     """socket.create_connection((host, port), ...) -> sync_factory(host, port) ;
-    asyncio.open_connection(host, port=...) -> async_factory(host, port) returning (reader, writer)."""
+    asyncio.open_connection(host, port=...) -> async_factory(host, port) returning (reader, writer).
+    Connections the client opens through any other API are bridged to sync_factory (see Bridge)."""
     import socket
+
+    from vf.instruments.monitors import NET
 
     real_cc, real_oc = socket.create_connection, asyncio.open_connection
     log: t.List[tuple] = []
@@ -435,9 +658,15 @@ def patched_connections(sync_factory=None, async_factory=None):
 
     if sync_factory:
         socket.create_connection = cc
+        BRIDGE.install()
+        BRIDGE.stack.append((sync_factory, log))
+        NET.bridge_active += 1
     if async_factory:
         asyncio.open_connection = oc
     try:
         yield log
     finally:
         socket.create_connection, asyncio.open_connection = real_cc, real_oc
+        if sync_factory:
+            BRIDGE.stack.pop()
+            NET.bridge_active -= 1
